@@ -3,6 +3,7 @@ CONSTANTS
   RingBits = 8
   Mode = "single"
   Sample = FALSE
+  Runs = 1
 SPECIFICATION MacroSpec
 INVARIANT C01Single
 CHECK_DEADLOCK FALSE
